@@ -108,6 +108,18 @@ def main(argv):
             if nondet <= 3:
                 res.violation("the same program with the same inputs gave different results in different runs",
                               {"kind": "impl-law", "program": p, "observed": sorted(outs)})
+    # a sample of the generated programs each ALONE in a fresh process: whatever a process-wide or per-thread cache
+    # (spans, lower-cased names, interned strings) remembers from the hundreds of programs before it must not matter
+    iso_n = 80 if tier == "quick" else 1500
+    step_ = max(1, len(progs) // iso_n)
+    for i in range(0, len(progs), step_):
+        alone = es.rust_eval(h, [progs[i]])[0]
+        if strip_names(alone) != strip_names(runs[0][i]):
+            nondet += 1
+            if nondet <= 3:
+                res.violation("a program gave a different result after unrelated earlier evaluations in the same process",
+                              {"kind": "impl-law", "program": progs[i], "alone": alone, "after_others": runs[0][i],
+                               "evaluated_before_it": progs[max(0, i - 4):i]})
     # the real CLI twice (different processes), on programs that declare outputs
     cli_n = 25 if tier == "quick" else 1500
     cli_diff = 0
